@@ -58,6 +58,7 @@ def shards(tier):
                     out.append({"mode": mode, "op": op.key, "dimA": dimA, "dimB": dimB})
         for dim in (2, 3, 4):
             out.append({"mode": mode, "op": "__records__", "dimA": dim, "dimB": None})
+            out.append({"mode": mode, "op": "__mixed_depth__", "dimA": dim, "dimB": None})
             for s_ in L.SYSTEMS[dim]:
                 out.append({"mode": mode, "op": "__conversions__", "dimA": dim, "dimB": None, "sys": list(s_)})
     return out
@@ -353,6 +354,136 @@ def run_records(res: Result, dim, tier, mode):
     res.sample({"mode": mode, "records": f"array[i, j] in {dim}D", "layouts": ["jagged", "nested3", "optrec", "regular", "flat"]})
 
 
+def _leaves(lst, path=()):
+    if isinstance(lst, list):
+        for i, x in enumerate(lst):
+            yield from _leaves(x, path + (i,))
+    else:
+        yield path, lst
+
+
+def _at(lst, path):
+    for i in path:
+        lst = lst[i]
+    return lst
+
+
+def _shape_only(lst):
+    return [_shape_only(x) for x in lst] if isinstance(lst, list) else "."
+
+
+def run_mixed_depth(res: Result, dim, tier, mode):
+    """A vector array and an argument (booster, axis, second vector, factor or angle array) of *different nesting depth* (flat against
+    jagged, jagged against doubly jagged), in both orders: the result has the list structure of the deeper operand, every leaf
+    equals the object-backend result of the two elements that broadcast to it, and the extra field of the transformed vector
+    array arrives at the leaf level (two-vector combinations carry none)."""
+    shapes = {("flat", "jagged"): ([0, 1, 2], [[0, 1], [], [2, 3, 4]]), ("jagged", "nested3"): ([[0, 1], [], [2]], [[[0], [1, 2]], [], [[3, 4, 5]]])}
+
+    def fill(shape, items):
+        return [fill(x, items) for x in shape] if isinstance(shape, list) else items[shape]
+
+    def vec_array(system, flavor, rows, shape, extra):
+        names = L.field_names(system, flavor)
+        recs = [dict(zip(names, r), **({extra: 10 + i} if extra else {})) for i, r in enumerate(rows)]
+        return vector.Array(ak.Array(fill(shape, recs)))
+
+    ops = []
+    if dim == 4:
+        ops += [("boost_p4", 4, "vec", lambda v, a: v.boost_p4(a)), ("boost(4D)", 4, "vec", lambda v, a: v.boost(a)), ("boost_beta3", 3, "beta", lambda v, a: v.boost_beta3(a)),
+                ("boostCM_of_p4", 4, "vec", lambda v, a: v.boostCM_of_p4(a)), ("boostX(beta=array)", None, "beta1", lambda v, a: v.boostX(beta=a))]
+    if dim >= 3:
+        ops += [("rotate_axis", 3, "vec", lambda v, a: v.rotate_axis(a, 0.375)), ("rotateX(array)", None, "num", lambda v, a: v.rotateX(a)), ("cross", 3, "vec2", lambda v, a: v.cross(a))] if dim == 3 else \
+               [("rotate_axis", 3, "vec", lambda v, a: v.rotate_axis(a, 0.375)), ("rotateX(array)", None, "num", lambda v, a: v.rotateX(a))]
+    ops += [("scale(array)", None, "num", lambda v, a: v.scale(a)), ("rotateZ(array)", None, "num", lambda v, a: v.rotateZ(a)), ("add", dim, "vec2", lambda v, a: v.add(a)),
+            ("subtract", dim, "vec2", lambda v, a: v.subtract(a)), ("dot", dim, "scalar", lambda v, a: v.dot(a)), ("deltaphi", dim, "scalar", lambda v, a: v.deltaphi(a))]
+    NUMS = [0.5, -0.25, 1.5, -2.0, 0.75, 0.125]
+    BETA1 = [0.5, -0.25, 0.125, -0.625, 0.75, 0.0625]
+    sys_self = (L.CART[dim], L.SYSTEMS[dim][-1])
+    for (ks, kd), (sh_s, sh_d) in shapes.items():
+        for sa in sys_self:
+            for flavor in ("generic", "momentum"):
+                for oname, adim, akind, call in ops:
+                    for self_is in ("shallow", "deep"):
+                        rows_v = [tuple(float(x) for x in S.stored(v, sa)) for v in A.representatives([v for v in A.vectors(dim, "quick") if C03._well(v) and not v.has("wildphi") and S.stored(v, sa) is not None], 6)]
+                        n_self = 3 if (self_is == "shallow" and ks == "flat") else (3 if self_is == "shallow" else (5 if kd == "jagged" else 6))
+                        shape_self, shape_arg = (sh_s, sh_d) if self_is == "shallow" else (sh_d, sh_s)
+                        n_arg = 1 + max(p for _, p in _leaves(shape_arg))
+                        if len(rows_v) < 6:
+                            continue
+                        v = vec_array(sa, flavor, rows_v, shape_self, "quality")
+                        if akind in ("vec", "vec2", "scalar"):
+                            sb = L.SYSTEMS[adim][-1] if sa == L.CART[dim] else L.CART[adim]
+                            if oname.startswith("boost") and adim == 4:
+                                ps = S._booster_p4("thorough")
+                            else:
+                                ps = [p_ for p_ in A.partners(adim, "thorough") if not (p_.has("spacelike") or p_.has("negtime") or p_.has("fast"))]
+                            rows_arg = [tuple(float(x) for x in S.stored(ps[i % len(ps)], sb)) for i in range(6)]
+                            arg = vec_array(sb, "generic", rows_arg, shape_arg, "weight")
+                            arg_objs = [B.make_obj(sb, "generic", r) for r in rows_arg]
+                        elif akind == "beta":
+                            sb = L.CART[3]
+                            rows_arg = [tuple(float(c) for c in S._beta3_partners("thorough")[i % 5].comps) for i in range(6)]
+                            arg = vec_array(sb, "generic", rows_arg, shape_arg, None)
+                            arg_objs = [B.make_obj(sb, "generic", r) for r in rows_arg]
+                        else:
+                            vals = BETA1 if akind == "beta1" else NUMS
+                            arg = ak.Array(fill(shape_arg, vals))
+                            arg_objs = vals
+                        objs_v = [B.make_obj(sa, flavor, r) for r in rows_v]
+                        res.states += 1
+                        res.evaluations += 1
+                        res.transitions += 1
+                        case = {"mode": mode, "op": "__mixed_depth__", "dim": dim, "method": oname, "sysA": list(sa), "flavor": flavor, "self": f"{ks if self_is == 'shallow' else kd}", "argument": f"{kd if self_is == 'shallow' else ks}"}
+                        cls = f"mixed_depth|{oname}|{dim}D|{case['self']}x{case['argument']}|{mode}"
+                        try:
+                            r = call(v, arg)
+                        except Exception as e:  # noqa: BLE001
+                            res.traces += 1
+                            res.violation(f"raises|{cls}|{type(e).__name__}", f"{oname} of a {case['self']} array with a {case['argument']} argument raised {type(e).__name__}: {str(e).strip()[:160]}", case)
+                            continue
+                        res.traces += 1
+                        out = ak.to_list(r) if isinstance(r, ak.Array) else None
+                        deep_shape = _shape_only(fill(sh_d, list(range(6))))
+                        if out is None or _shape_only(out) != deep_shape:
+                            res.violation(f"structure|{cls}", f"{oname}: result type {ak.type(r) if out is not None else type(r).__name__}, list structure {_shape_only(out) if out is not None else None}; the operands broadcast to {deep_shape}", case)
+                            continue
+                        bad = None
+                        idx_self, idx_arg = fill(shape_self, list(range(6))), fill(shape_arg, list(range(6)))
+                        for path, leaf in _leaves(out):
+                            ps_, pa_ = (path[: len(path) - 1], path) if self_is == "shallow" else (path, path[: len(path) - 1])
+                            i_self, i_arg = _at(idx_self, ps_), _at(idx_arg, pa_)
+                            try:
+                                ref = call(objs_v[i_self], arg_objs[i_arg])
+                            except Exception:  # noqa: BLE001
+                                continue
+                            if akind == "scalar":
+                                ok_ = isinstance(leaf, (int, float)) and (C03.angle_close(float(leaf), float(ref)) if oname == "deltaphi" else C03.fclose(float(leaf), float(ref), 64.0))
+                                if not ok_:
+                                    bad = f"element {path}: {leaf!r}, the object backend gives {float(ref)!r}"
+                                    break
+                                continue
+                            if not isinstance(leaf, dict):
+                                bad = f"element {path} is {leaf!r}, not a vector record"
+                                break
+                            osys, ost = L.system_of(ref)
+                            gn = L.field_names(osys)
+                            if not all(n_ in leaf for n_ in gn) or not all((C03.angle_close(float(leaf[n_]), float(q)) if n_ == "phi" else C03.fclose(float(leaf[n_]), float(q), 64.0)) for n_, q in zip(gn, ost)):
+                                bad = f"element {path}: {leaf}, the object backend gives {dict(zip(gn, (float(x) for x in ost)))}"
+                                break
+                            extra_out = {k_: v_ for k_, v_ in leaf.items() if k_ not in COORDS}
+                            want_extra = {} if akind == "vec2" else {"quality": 10 + i_self}
+                            if extra_out != want_extra:
+                                bad = f"element {path}: non-coordinate fields {extra_out}, expected {want_extra}"
+                                break
+                        if bad is None and akind != "scalar" and not isinstance(r, vector.backends.awkward.VectorAwkward):
+                            bad = f"result {type(r).__name__} has no vector behavior"
+                        if bad:
+                            res.violation(f"element|{cls}", f"{oname} ({case['self']} array, {case['argument']} argument): {bad}", case)
+                        else:
+                            res.nontrivial += 1
+    res.sample({"mode": mode, "op": "__mixed_depth__", "dim": dim, "methods": [o[0] for o in ops], "depth_pairs": [list(k) for k in shapes]})
+
+
 def run_shard(shard, tier):
     res = Result()
     if shard["mode"] == "registered":
@@ -360,7 +491,9 @@ def run_shard(shard, tier):
     else:
         if vector._awkward_registered:
             raise RuntimeError("harness: worker process already has register_awkward() applied")
-    if shard["op"] == "__records__":
+    if shard["op"] == "__mixed_depth__":
+        run_mixed_depth(res, shard["dimA"], tier, shard["mode"])
+    elif shard["op"] == "__records__":
         run_records(res, shard["dimA"], tier, shard["mode"])
     elif shard["op"] == "__conversions__":
         run_conversions(res, shard["dimA"], tuple(shard["sys"]), tier, shard["mode"])
@@ -377,7 +510,9 @@ def replay(case):
         res = Result()
         if case["mode"] == "registered":
             vector.register_awkward()
-        if case["op"] == "__records__":
+        if case["op"] == "__mixed_depth__":
+            run_mixed_depth(res, case["dim"], "thorough", case["mode"])
+        elif case["op"] == "__records__":
             run_records(res, len(case["sys"]) + 1, "thorough", case["mode"])
         elif case["op"] == "__conversions__":
             run_conversions(res, len(case["sys"]) + 1, tuple(case["sys"]), "thorough", case["mode"])
